@@ -60,6 +60,11 @@ func runC18(p *core.Program, r *core.Report) {
 	// R12: the omit / replace tags are read with the documented tag syntax: key and value are split at the first '=' or
 	// space (C12.R4), so `replace Spec:SpecPartial json:\"spec\" validate:\"min=1\"` keeps its key
 	chainRules(p, r, "R12", "C12", []string{"C12.R4"}, "tag lines are split into key and value at the first '=' or space")
+	// R13: "foreign types correctly imported": the names the import block binds are unique and always committed (C03.R4/R6)
+	chainRules(p, r, "R13", "C03", []string{"C03.R4", "C03.R6"}, "an import name is bound only when free, and a name is always committed")
+	// R14: "identical types": a field type given as a go/types type is rendered by the type-literal printer, whatever kind
+	// it is (C11.R4)
+	chainRules(p, r, "R14", "C11", []string{"C11.R4"}, "ID renders go/types and reflect types through the type-literal printer only")
 	// R6: "foreign types correctly imported" - every package the type printer registered is
 	// imported under the very name the rendered field types use (C03.R2's printer rule)
 	r.Floor("R6", 2)
